@@ -59,6 +59,18 @@ def decide(gd, idx, cls):
                 res["stats"]["exact_" + kk] = res["stats"].get("exact_" + kk, 0) + v
             if st["lex_states"] or st["tie_states"] or st["p2_checked"]:
                 res["nontrivial"] = True
+    if idx % 3 == 0 and outs[True].status == "ok" and outs[False].status == "ok":
+        # one game object, pruned then unpruned (the public prune_states attribute switched in between)
+        tad = monitors.mods()["tad"]
+        desc = games.to_solver(gd)
+        sg = tad.StochasticGame(desc["rewards"], desc["players"], desc["transition_list"], desc["final_states"], prune_states=True)
+        lim = sc.limit_for(an)
+        for prune in (True, False):
+            o = monitors.observed_solve(desc, prune, lim, sg=sg)
+            res["stats"]["same_object_solves"] = res["stats"].get("same_object_solves", 0) + 1
+            if o.status == "ok" and o.result[0] != outs[prune].result[0]:
+                problems.append({"mode": "same-object prune=%s" % prune, "state": None, "problem": "final strategies differ when the same game object is solved again in the other mode",
+                                 "got": o.result[0], "expected": outs[prune].result[0]})
     if not checked:
         return sc.skipped(idx, "no result")
     if problems:
